@@ -227,7 +227,7 @@ end
 
 /-- `'{}# --- {} of {} replications ---'.format(indent, ir, n_repeats)` -/
 def repHeader (indent : Line) (ir k : Nat) : Line :=
-  indent ++ '#' :: " --- ".toList ++ natStr ir ++ " of ".toList ++ natStr k ++ " replications ---".toList
+  indent ++ '#' :: ' ' :: (("--- ".toList ++ natStr ir ++ " of ".toList ++ natStr k ++ " replications --".toList) ++ ['-'])
 
 /-- the loop over the repetitions; `cs` = the rendered member blocks cut into repetitions, `ir` = number of
     repetitions already printed -/
